@@ -150,6 +150,224 @@ def start_drain_gates(repo: Path):
         "localStartLinkCall": m2.group(1) if m2 else "",
         "tryLinkStartingCalls": m3.group(1) if m3 else "",
     }
+def registry_facts(repo: Path):
+    """C10 (round 4, agent tree): source facts about the registries.  Returns Lean lines."""
+    cell = strip_comments(read(repo, "ractor/src/actor/actor_cell.rs"))
+    actor = strip_comments(read(repo, "ractor/src/actor.rs"))
+    inner = strip_comments(read(repo, "ractor/src/thread_local/inner.rs"))
+    pidreg = strip_comments(read(repo, "ractor/src/registry/pid_registry.rs"))
+    out = []
+    # every call site of set_status(ActorStatus::Stopped) outside tests, with its enclosing fn
+    sites = []
+    for rel in ("ractor/src/actor.rs", "ractor/src/actor/actor_cell.rs", "ractor/src/thread_local/inner.rs",
+                "ractor/src/actor/actor_ref.rs", "ractor/src/actor/actor_properties.rs",
+                "ractor/src/thread_local.rs", "ractor/src/actor/derived_actor.rs"):
+        src = strip_comments(read(repo, rel))
+        for m in re.finditer(r"\.set_status\(\s*ActorStatus::Stopped\s*\)", src):
+            fns = list(re.finditer(r"\bfn\s+(\w+)", src[:m.start()]))
+            sites.append((rel.split("/")[-1] + ":" + (fns[-1].group(1) if fns else "?")))
+    out.append("/-- every non-test call site of `set_status(ActorStatus::Stopped)`: file:enclosing fn -/")
+    out.append(f"def stoppedCallSites : List String := {lean_strs(sites)}")
+    # spawn_linked_remote: the extra set_status(Stopped) comes after `start(...)` has returned an error
+    body = fn_body(actor, "spawn_linked_remote") or ""
+    i_start = body.find(".start(")
+    m = re.search(r"if\s+result\.is_err\(\)\s*\{\s*\w+\.set_status\(\s*ActorStatus::Stopped\s*\)\s*;\s*\}", body)
+    out.append("/-- `spawn_linked_remote`: `set_status(Stopped)` only inside `if result.is_err()` after `start(..).await` -/")
+    out.append(f"def remoteStoppedAfterFailedStart : Bool := {str(bool(m) and 0 <= i_start < m.start()).lower()}")
+    # set_status: registry::unregister(name) guarded by is_local()
+    ss = fn_body(cell, "set_status", cell.find("pub(crate) fn set_status")) or ""
+    guarded = re.search(r"if\s+self\.get_id\(\)\.is_local\(\)\s*\{\s*crate::registry::unregister\(name\)\s*;\s*\}", ss) is not None
+    n_unreg = len(re.findall(r"registry::unregister\(", ss))
+    out.append("/-- `set_status`: the one `registry::unregister(name)` sits inside `if self.get_id().is_local()` (fix of F2) -/")
+    out.append(f"def unregisterGuardedByIsLocal : Bool := {str(guarded and n_unreg == 1).lower()}")
+    nr = fn_body(cell, "new_remote") or ""
+    out.append("/-- `ActorCell::new_remote` touches neither registry -/")
+    out.append(f"def newRemoteTouchesRegistries : Bool := {str('registry::' in nr).lower()}")
+    # ActorCell::new: register ; register_pid ; on Err unregister(name)
+    nb = fn_body(cell, "new", cell.find("pub(crate) fn new<TActor>")) or ""
+    calls = re.findall(r"registry::(?:pid_registry::)?(register_pid|register|unregister)\(", nb)
+    out.append("/-- registry calls of `ActorCell::new` in source order -/")
+    out.append(f"def newRegistryCalls : List String := {lean_strs(calls)}")
+    rb = re.search(r"if\s+let\s+Err\(err\)\s*=\s*crate::registry::pid_registry::register_pid\([^{}]*?\)\s*\{\s*if\s+let\s+Some\(r_name\)\s*=\s*&name\s*\{\s*crate::registry::unregister\(r_name\)\s*;\s*\}\s*return\s+Err", nb) is not None
+    out.append("/-- … and the `unregister` is the rollback inside `if let Err(err) = register_pid(..)`, followed by `return Err` -/")
+    out.append(f"def newRollsBackOnPidFailure : Bool := {str(rb).lower()}")
+    tl = fn_body(inner, "new_thread_local") or ""
+    calls_tl = re.findall(r"registry::(?:pid_registry::)?(register_pid|register|unregister)\(", tl)
+    out.append("/-- the thread-local twin of `ActorCell::new` -/")
+    out.append(f"def newThreadLocalRegistryCalls : List String := {lean_strs(calls_tl)}")
+    # pid registry: every entry point is guarded by is_local(); fan-out after the insert / after the remove
+    guards = []
+    for f in ("register_pid", "unregister_pid", "where_is_pid"):
+        b = (fn_body(pidreg, f) or "").strip()
+        guards.append((f, b.startswith("if id.is_local()")))
+    out.append("/-- pid registry entry points whose body is `if id.is_local() { … }` -/")
+    out.append("def pidRegistryLocalGuards : List (String × Bool) := [" +
+               ", ".join(f"({lean_str(k)}, {str(v).lower()})" for k, v in guards) + "]")
+    rp = fn_body(pidreg, "register_pid") or ""
+    up = fn_body(pidreg, "unregister_pid") or ""
+    sp_ok = 0 <= rp.find("v.insert(") < rp.find("PidLifecycleEvent::Spawn") and "Occupied" in rp[:rp.find("v.insert(")]
+    tm_ok = 0 <= up.find(".remove(&id)") < up.find("PidLifecycleEvent::Terminate") and up.count("PidLifecycleEvent::") == 1
+    out.append("/-- `register_pid`: `Spawn` is sent only in the `Vacant` arm, after the insert; `unregister_pid`: `Terminate` only if `remove` returned an entry -/")
+    out.append(f"def pidEventsAfterTableChange : Bool := {str(bool(sp_ok and tm_ok)).lower()}")
+    return out
+
+
+def tree_facts(repo: Path):
+    """C05 (round 4, agent tree): source facts about the supervision tree.  Returns Lean lines."""
+    sup = strip_comments(read(repo, "ractor/src/actor/supervision.rs"))
+    cell = strip_comments(read(repo, "ractor/src/actor/actor_cell.rs"))
+    actor = strip_comments(read(repo, "ractor/src/actor.rs"))
+    inner = strip_comments(read(repo, "ractor/src/thread_local/inner.rs"))
+    out = []
+    # terminate: per popped actor first the kill test, then take_children, then the push
+    tb = fn_body(cell, "terminate") or ""
+    order = [m.group(0) for m in re.finditer(r"get_status\(\)|\.kill\(\)|take_children|pending\.extend|pending\.pop", tb)]
+    out.append("/-- `ActorCell::terminate`: the calls of the worklist loop in source order -/")
+    out.append(f"def terminateLoopOrder : List String := {lean_strs(order)}")
+    # the two link forms and their child limits
+    lims = []
+    for f in ("link", "link_starting"):
+        b = fn_body(sup, f) or ""
+        m = re.search(r"link_below\(\s*child\s*,\s*supervisor\s*,\s*super::actor_cell::ActorStatus::(\w+)", b)
+        lims.append((f, m.group(1) if m else "?"))
+    out.append("/-- child limit each link form passes to `link_below` -/")
+    out.append("def linkChildLimits : List (String × String) := [" + ", ".join(f"({lean_str(a)}, {lean_str(b)})" for a, b in lims) + "]")
+    lb = fn_body(sup, "link_below") or ""
+    m = re.search(r"if\s+child\.get_status\(\)\s*>=\s*child_limit\s*\|\|\s*supervisor\.get_status\(\)\s*>=\s*super::actor_cell::ActorStatus::(\w+)\s*\{\s*return\s+false", lb)
+    out.append("/-- `link_below`: `child >= child_limit || supervisor >= <this>` refuses -/")
+    out.append(f"def linkSupervisorLimit : String := {lean_str(m.group(1) if m else '?')}")
+    starts = []
+    for rel, src in (("actor.rs", actor), ("inner.rs", inner)):
+        b = fn_body(src, "start", src.find("async fn start")) or ""
+        starts.append((rel, "try_link_starting" if "try_link_starting(" in b else ("try_link" if "try_link(" in b else "?")))
+    out.append("/-- which link `start` uses (Send runtime, thread-local runtime) -/")
+    out.append("def startLinkCalls : List (String × String) := [" + ", ".join(f"({lean_str(a)}, {lean_str(b)})" for a, b in starts) + "]")
+    # who takes TREE_MUTATION_LOCK
+    locked = []
+    for f in ("link_below", "unlink", "take_children", "get_children", "for_each_child", "try_get_supervisor"):
+        locked.append((f, "TREE_MUTATION_LOCK" in (fn_body(sup, f) or "")))
+    out.append("/-- functions of `supervision.rs` that take `TREE_MUTATION_LOCK` -/")
+    out.append("def treeLockUsers : List (String × Bool) := [" + ", ".join(f"({lean_str(a)}, {str(b).lower()})" for a, b in locked) + "]")
+    # hand-over: both field guards of the first half are dropped before the old supervisor's set is locked
+    i1, i2 = lb.find("drop(current_supervisor)"), lb.find("drop(new_children_guard)")
+    i3 = lb.find("previous_supervisor.inner.tree.children.lock()")
+    out.append("/-- `link_below`: `drop(current_supervisor); drop(new_children_guard)` precede the lock of the previous supervisor's set -/")
+    out.append(f"def linkReleasesBeforeOldParent : Bool := {str(0 <= i1 < i2 < i3).lower()}")
+    # unlink: early return unless `supervisor` is the child's current supervisor, before anything is touched
+    ub = fn_body(sup, "unlink") or ""
+    m = re.search(r"if\s*!\s*current_supervisor\s*\.as_ref\(\)\s*\.is_some_and\(\|current\|\s*current\.get_id\(\)\s*==\s*supervisor\.get_id\(\)\)\s*\{\s*return;\s*\}", ub)
+    i_rm = ub.find(".remove(")
+    out.append("/-- `unlink`: `if !current_supervisor…is_some_and(|current| current.get_id() == supervisor.get_id()) { return; }` precedes the removal -/")
+    out.append(f"def unlinkOnlyCurrentSupervisor : Bool := {str(bool(m) and 0 <= m.end() <= i_rm).lower()}")
+    # cleanup: terminate() is called unconditionally (brace depth 0 of the function body, after the `armed` test)
+    cb = fn_body(actor, "cleanup", actor.find("impl ActorLifecycleGuard")) or ""
+    i_t = cb.find("self.actor.terminate()")
+    depth = cb[:i_t].count("{") - cb[:i_t].count("}") if i_t >= 0 else -1
+    out.append("/-- `ActorLifecycleGuard::cleanup`: `self.actor.terminate()` is not inside any `if` -/")
+    out.append(f"def cleanupTerminatesUnconditionally : Bool := {str(depth == 0).lower()}")
+    tk = fn_body(sup, "take_children") or ""
+    out.append("/-- `take_children`: the parent's `children` guard is never dropped explicitly (held to the end of the region) -/")
+    out.append(f"def takeHoldsParentSet : Bool := {str('children.lock()' in tk and 'drop(children)' not in tk).lower()}")
+    return out
+
+
+def async_std_backend(repo: Path):
+    """Round 4 (agent asyncstd): facts about ractor/src/concurrency/async_std_primitives.rs that the models
+    (written after the tokio primitives) rely on when ractor is built with `--features async-std`.
+    Everything is a normalised piece of source text / a textual order; sentinels ("" / [] / false) when the
+    shape is not found, so that the `by decide` obligation fails rather than the extractor.
+
+    * sleep / timeout: the async-std call they forward to, with the duration passed on unchanged, and the
+      error mapped to `Timeout`;
+    * JoinHandle::abort -> AbortHandle::abort; every spawn form awaits `Abortable::new(future, abort_registration)`
+      as the FIRST thing of the task and sets the `is_done` flag after it; JoinHandle::poll maps the three cases;
+    * interval: first tick immediately (`next_tick: Instant::now()`), `tick` = read the clock, sleep the
+      remaining time only if the tick lies in the future, then `next_tick += dur` (fixed-rate, no drift);
+    * JoinSet: futures are polled inline by the joiner (FuturesUnordered), `join_next` never reports a join error;
+    * the `verif::controlled` hook wraps the future BEFORE the Abortable wrapper in spawn_local / spawn_named
+      (an abort therefore drops the controlled future, exactly as tokio's abort does)."""
+    src = strip_comments(read(repo, "ractor/src/concurrency/async_std_primitives.rs"))
+    # cut the test module off
+    ti = src.find("#[cfg(test)]")
+    if ti >= 0:
+        src = src[:ti]
+
+    def norm(t):
+        return re.sub(r"\s+", "", t or "")
+
+    sleep_body = norm(fn_body(src, "sleep"))
+    timeout_body = norm(fn_body(src, "timeout"))
+    ji = src.find("impl<T> JoinHandle<T>")
+    abort_body = norm(fn_body(src, "abort", ji if ji >= 0 else 0))
+    isfin_body = norm(fn_body(src, "is_finished", ji if ji >= 0 else 0))
+    # the task bodies handed to async-std: `async move { let r = <X>.await; inner_signal.fetch_or(..); r }`
+    tasks = re.findall(r"async move \{\s*let r = (.*?)\.await;\s*(.*?);\s*r\s*\}", src, flags=re.S)
+    spawn_awaits = [norm(a) for a, _ in tasks]
+    spawn_then = [norm(b) for _, b in tasks]
+    spawn_calls = re.findall(r"(async_std::task::spawn_local|async_std::task::spawn|async_std::task::Builder::new\(\))", src)
+    pi = src.find("impl<T> async_std::future::Future for JoinHandle<T>")
+    poll_body = fn_body(src, "poll", pi if pi >= 0 else 0) or ""
+    # the three arms of `match inner_polled_value`: pattern => last expression of the arm
+    arms = []
+    m = re.search(r"match inner_polled_value\s*\{(.*)\}", poll_body, flags=re.S)
+    if m:
+        for pat, rest in re.findall(r"(Poll::\w+(?:\([^=]*?\))?)\s*=>\s*(\{.*?\}|[^,]+),?", m.group(1), flags=re.S):
+            exprs = [e for e in re.split(r"[;{}]", rest) if e.strip()]
+            arms.append(norm(pat) + "=>" + norm(exprs[-1] if exprs else ""))
+    m = re.search(r"pub fn interval\(dur: Duration\) -> Interval\s*\{\s*Interval\s*\{(.*?)\}\s*\}", src, flags=re.S)
+    interval_init = norm(m.group(1)) if m else ""
+    ii = src.find("impl Interval")
+    tick = fn_body(src, "tick", ii if ii >= 0 else 0) or ""
+    tick_steps = [norm(x) for x in re.findall(
+        r"(let now = Instant::now\(\)|if self\.next_tick > now|sleep\(self\.next_tick - now\)\.await|self\.next_tick \+= self\.dur)", tick)]
+    tick_stmts = len([x for x in re.split(r"[;{}]", tick) if x.strip()])
+    si = src.find("impl<T> JoinSet<T>")
+    js_spawn = norm(fn_body(src, "spawn", si if si >= 0 else 0))
+    js_next = norm(fn_body(src, "join_next", si if si >= 0 else 0))
+    hooks = []
+    for f in ("spawn_local", "spawn_named"):
+        m = re.search(r"pub fn " + f + r"\b", src)
+        b = fn_body(src, f, m.start() if m else 0) or ""
+        h = b.find("crate::verif::controlled(")
+        a = b.find("AbortHandle::new_pair()")
+        if 0 <= h < a and re.search(r'#\[cfg\(feature = "verif"\)\]\s*let future = crate::verif::controlled\((None|name), future\);', b):
+            hooks.append(f)
+    plain_spawn = norm(fn_body(src, "spawn", src.find("pub fn spawn<F>") if src.find("pub fn spawn<F>") >= 0 else 0))
+    # cfg twins in actor_cell.rs: the `#[cfg(feature = "async-std")]` block of listen_in_priority / run_with_signal
+    # equals the `#[cfg(not(feature = "async-std"))]` block once `(<e>).fuse()` / `<e>.fuse()` is read as `<e>`
+    cell = strip_comments(read(repo, "ractor/src/actor/actor_cell.rs"))
+
+    def cfg_blocks(body):
+        out = {}
+        for m in re.finditer(r'#\[cfg\((not\()?feature = "async-std"\)?\)\]\s*\{', body or ""):
+            i = m.end() - 1
+            depth, k = 0, i
+            while k < len(body):
+                if body[k] == "{":
+                    depth += 1
+                elif body[k] == "}":
+                    depth -= 1
+                    if depth == 0:
+                        break
+                k += 1
+            out["tokio" if m.group(1) else "async-std"] = body[i + 1:k]
+        return out
+
+    def unfuse(t):
+        t = norm(t)
+        t = re.sub(r"\((&mutself\.\w+)\)\.fuse\(\)", r"\1", t)
+        return t.replace(".fuse()", "")
+    twins = []
+    for f in ("listen_in_priority", "run_with_signal"):
+        b = cfg_blocks(fn_body(cell, f))
+        twins.append((f, "tokio" in b and "async-std" in b and unfuse(b["async-std"]) == norm(b["tokio"])
+                      and b["async-std"].count(".fuse()") == b["async-std"].count("=>")))
+    return {
+        "sleep": sleep_body, "timeout": timeout_body, "abort": abort_body, "is_finished": isfin_body,
+        "spawn_calls": spawn_calls, "spawn_awaits": spawn_awaits, "spawn_then": spawn_then,
+        "poll_arms": arms, "interval_init": interval_init, "tick_steps": tick_steps, "tick_stmts": tick_stmts,
+        "js_spawn": js_spawn, "js_next": js_next, "hooks": hooks, "plain_spawn": plain_spawn, "twins": twins,
+    }
 
 
 def main():
@@ -344,11 +562,47 @@ def main():
     w("/-- `thread_local/inner.rs` twins token-identical to `actor.rs` (modulo the boxed loop future) -/")
     w(f"def threadLocalTwins : List (String × Bool) := [{', '.join(f'({lean_str(k)}, {str(v).lower()})' for k, v in twins.items())}]")
     w("")
+    # ---- async-std backend (round 4, agent asyncstd) ------------------------------------------
+    try:
+        ab = async_std_backend(repo)
+    except Exception as e:  # sentinels: the obligations fail, the extractor does not
+        print(f"extract: async_std_backend failed: {e}", file=sys.stderr)
+        ab = {k: "" for k in ("sleep", "timeout", "abort", "is_finished", "interval_init", "js_spawn", "js_next", "plain_spawn")}
+        ab.update({k: [] for k in ("spawn_calls", "spawn_awaits", "spawn_then", "poll_arms", "tick_steps", "hooks")})
+        ab["tick_stmts"] = 0
+        ab["twins"] = []
+    w("/-- async-std backend (`ractor/src/concurrency/async_std_primitives.rs`), whitespace-free source text -/")
+    w(f"def asyncStdSleepBody : String := {lean_str(ab['sleep'])}")
+    w(f"def asyncStdTimeoutBody : String := {lean_str(ab['timeout'])}")
+    w(f"def asyncStdAbortBody : String := {lean_str(ab['abort'])}")
+    w(f"def asyncStdIsFinishedBody : String := {lean_str(ab['is_finished'])}")
+    w("/-- the async-std spawn calls in source order (spawn_local; spawn_named: named, unnamed) -/")
+    w(f"def asyncStdSpawnCalls : List String := {lean_strs(ab['spawn_calls'])}")
+    w("/-- per spawned task body: the expression awaited first, and the statement between it and the result -/")
+    w(f"def asyncStdSpawnAwaits : List String := {lean_strs(ab['spawn_awaits'])}")
+    w(f"def asyncStdSpawnThen : List String := {lean_strs(ab['spawn_then'])}")
+    w(f"def asyncStdPlainSpawnBody : String := {lean_str(ab['plain_spawn'])}")
+    w(f"def asyncStdJoinPollArms : List String := {lean_strs(ab['poll_arms'])}")
+    w(f"def asyncStdIntervalInit : String := {lean_str(ab['interval_init'])}")
+    w(f"def asyncStdIntervalTickSteps : List String := {lean_strs(ab['tick_steps'])}")
+    w(f"def asyncStdIntervalTickStatements : Nat := {ab['tick_stmts']}")
+    w(f"def asyncStdJoinSetSpawnBody : String := {lean_str(ab['js_spawn'])}")
+    w(f"def asyncStdJoinSetJoinNextBody : String := {lean_str(ab['js_next'])}")
+    w("/-- actor_cell.rs: the async-std cfg block of the function equals the tokio one modulo `.fuse()` -/")
+    w(f"def asyncStdSelectTwins : List (String × Bool) := [{', '.join(f'({lean_str(k)}, {str(v).lower()})' for k, v in ab['twins'])}]")
+    w("/-- spawn functions whose future is wrapped by `verif::controlled` before the Abortable wrapper -/")
+    w(f"def asyncStdVerifHooks : List String := {lean_strs(ab['hooks'])}")
+    w("")
     cc_casts, cc_sites = cluster_session_creation(repo)
     w("/-- C17: (client.rs connect fn, NodeServerMessage variant it casts, `is_server` literal) -/")
     w(f"def clientConnectCasts : List (String × String × String) := [{', '.join(f'({lean_str(a)}, {lean_str(b)}, {lean_str(c)})' for a, b, c in cc_casts)}]")
     w("/-- C17: (arm of NodeServer::handle calling NodeSession::new, cookie argument, is_server argument) -/")
     w(f"def sessionCreationSites : List (String × String × String) := [{', '.join(f'({lean_str(a)}, {lean_str(b)}, {lean_str(c)})' for a, b, c in cc_sites)}]")
+    for line in registry_facts(repo):
+        w(line)
+    w("")
+    for line in tree_facts(repo):
+        w(line)
     w("")
     w("end Extracted")
     text = "\n".join(out) + "\n"
